@@ -45,21 +45,50 @@ func c03JoinLeaveBody(c *run.Ctx) {
 	sm := pokertable.VerifSeatManager(s.TE)
 	// the racing pair, back to back on the caller's goroutine
 	victim := cfg.Players[c.Ch.Int("victim", 0, last-1)].ID
-	kind := c.Ch.Int("kind", 0, 2)
+	kind := c.Ch.Int("kind", 0, 3)
+	if len(sim.FreeSeats(s.Now())) == 0 && kind == 3 {
+		kind = 0
+	}
 	spin := c.Ch.Int("spin", 0, 40)
-	err1 := s.API.PlayerJoin(cfg.Players[last].ID)
-	for i := 0; i < spin*50; i++ {
-		_ = i // a few hundred nanoseconds to microseconds
+	var err1, err2 error
+	done := make(chan struct{})
+	go func() {
+		defer close(done)
+		err1 = s.API.PlayerJoin(cfg.Players[last].ID)
+		for i := 0; i < spin*50; i++ {
+			_ = i // a few hundred nanoseconds to microseconds
+		}
+		switch kind {
+		case 0:
+			err2 = s.API.PlayersLeave([]string{victim})
+		case 1:
+			_, err2 = s.API.UpdateTablePlayers(nil, []string{victim})
+		case 2:
+			err2 = s.API.PlayersLeave([]string{victim, cfg.Players[last].ID})
+		case 3:
+			// a reservation right behind the join: it re-arms the auto-join group while that
+			// group's worker may still be validating the join
+			err2 = s.API.PlayerReserve(pokertable.JoinPlayer{PlayerID: "late", RedeemChips: 100, Seat: -1})
+		}
+	}()
+	select {
+	case <-done:
+	case <-time.After(20 * time.Second):
+		if sim.Starved() {
+			select {
+			case <-done:
+				s.Label("wait_extended_machine_starved")
+			case <-time.After(80 * time.Second):
+			}
+		}
+		select {
+		case <-done:
+			goto returned
+		default:
+		}
+		c.Failf("C03.membership-call-never-returned", "PlayerJoin(%s) followed at once by operation kind %d (0/1/2 = departure, 3 = reservation of a newcomer) did not return within 20 s: the engine is dead-locked", cfg.Players[last].ID, kind)
 	}
-	var err2 error
-	switch kind {
-	case 0:
-		err2 = s.API.PlayersLeave([]string{victim})
-	case 1:
-		_, err2 = s.API.UpdateTablePlayers(nil, []string{victim})
-	case 2:
-		err2 = s.API.PlayersLeave([]string{victim, cfg.Players[last].ID})
-	}
+returned:
 	c.Ch.Note("join(%s)=%v then leave kind %d (%s)=%v, spin %d", cfg.Players[last].ID, err1, kind, victim, err2, spin)
 	if err1 != nil || err2 != nil {
 		c.Failf("C03.refused.join-then-leave", "valid operations refused: join %v, leave %v", err1, err2)
@@ -77,8 +106,11 @@ func c03JoinLeaveBody(c *run.Ctx) {
 	if sig != "" {
 		c.Failf(sig, "after join-then-leave: %s; %s | sm: %s", msg, tableSummary(t), smDump(sm))
 	}
-	if sim.FindPlayer(t, victim) != nil {
+	if kind != 3 && sim.FindPlayer(t, victim) != nil {
 		c.Failf("C03.leaver-still-present", "%s left but is still at the table: %s", victim, tableSummary(t))
+	}
+	if kind == 3 && sim.FindPlayer(t, "late") == nil {
+		c.Failf("C03.newcomer-missing", "the reservation of a newcomer was accepted but he is not at the table: %s", tableSummary(t))
 	}
 	c.St.Case([]string{fmt.Sprintf("join_then_leave_kind_%d", kind), "join_then_leave"}, true, fmt.Sprintf("jl:%d:%d:%d:%s", len(cfg.Players), kind, spin/8, cfg.Mode), nil)
 }
